@@ -1,5 +1,6 @@
 from __future__ import annotations
 
+import sys
 from typing import TYPE_CHECKING, BinaryIO
 
 if TYPE_CHECKING:
@@ -71,7 +72,10 @@ class BitBuffer:
 
     def flush(self) -> None:
         if self._type is not None:
-            self._type._write(self.stream, self._buffer)
+            # The unit is accumulated as an unsigned value, so write its bytes directly: going through a signed
+            # storage type would reject every unit that has its most significant bit set
+            byteorder = sys.byteorder if self.endian in ("@", "=") else ("little" if self.endian == "<" else "big")
+            self.stream.write(self._buffer.to_bytes(self._type.size, byteorder))
         self._type = None
         self._remaining = 0
         self._buffer = 0
